@@ -101,6 +101,16 @@ CLAIMED = {
             'are not; threaded runs compared as multisets with a 30 s watchdog (re-run before reporting); open finding '
             'F-C12-assign-batch-skip steered around and reported.',
             '§3 C12'),
+    'C10': ('exploration',
+            'Hypothesis-generated next/checkpoint/restore/drain histories against an index-into-the-uninterrupted-run model',
+            'Histories of next / checkpoint (optionally pickled) / restore(any earlier checkpoint) / drain are run over iterators of '
+            'SequenceDataSource (plain, multi-sequence, sharded, nested-sharded), ShardedIterable (plain, sharded) and pipelines over '
+            'them (fused or chained named stages, aggregates in either or both stages, optional filter). The model is the position in '
+            'the uninterrupted run: after a restore the iterator must deliver exactly the remaining elements in order, and after a '
+            'drain both agg_result and the AggregateResult returned through StopIteration must equal the uninterrupted ones; '
+            'successive generations of restore are generated deliberately. Threaded pipelines are compared as multisets.',
+            'exact aggregates; open finding F-C10-threaded-restore-skips-prefetched (num_threads > 0) is steered around and reported.',
+            '§3 C10'),
 }
 
 PENDING_REASON = 'check not built yet in this session (work in progress; see DESIGN.md §9 build order) - not claimed until its check exists'
